@@ -21,3 +21,17 @@ func init() {
 		}
 	}
 }
+
+func init() {
+	extraCmds["c15time"] = func(args []string) {
+		installStepHook()
+		for _, p := range corpusPrograms() {
+			t0 := time.Now()
+			c15Eval(p)
+			d := time.Since(t0)
+			if d > 5*time.Millisecond {
+				fmt.Printf("%8.1fms tokens=%d %.60q\n", float64(d.Microseconds())/1000, len(vtokens(p)), p)
+			}
+		}
+	}
+}
